@@ -2,7 +2,7 @@
 """Regenerates the three tables of DESIGN.md section 12 from seeded/*/meta.json (rows grouped rt1 / rt2 / audits)."""
 import json, os, re
 ROOT = os.path.dirname(os.path.dirname(os.path.abspath(__file__)))
-rows = {'rt1': [], 'rt2': [], 'rt3': [], 'au': []}
+rows = {'rt1': [], 'rt2': [], 'rt3': [], 'rt4': [], 'au': []}
 def cell(s, n):
     s = re.sub(r'\s+', ' ', str(s)).replace('|', '\\|').strip()
     return s if len(s) <= n else s[:n - 1].rstrip() + '…'
@@ -11,7 +11,7 @@ for d in sorted(os.listdir(os.path.join(ROOT, 'seeded'))):
     if not os.path.exists(mp):
         continue
     m = json.load(open(mp))
-    kind = 'rt1' if d.endswith('-rt1') else 'rt2' if d.endswith('-rt2') else 'rt3' if d.endswith('-rt3') else 'au'
+    kind = 'rt1' if d.endswith('-rt1') else 'rt2' if d.endswith('-rt2') else 'rt3' if d.endswith('-rt3') else 'rt4' if d.endswith('-rt4') else 'au'
     rows[kind].append('| `%s` | %s | %s | %s |' % (d, m.get('property', d[:3]), cell(m.get('summary', ''), 260), cell(m.get('verdict', 'not run'), 420)))
 HEAD = '| seeded change | property | what it changes | verdict of the check |\n|---|---|---|---|\n'
 def table(k):
@@ -27,7 +27,8 @@ def put(s, start, nxt, body):
     return s[:i] + '\n\n' + body + ('\n' + prose + '\n' if prose else '') + '\n' + s[j:]
 s = put(s, '### Round 1 (black box)', '### Round 2 (black box', table('rt1'))
 s = put(s, '### Round 2 (black box, different kind of change)', '### Round 3 (black box', table('rt2'))
-s = put(s, '### Round 3 (black box, third kind of change)', '### White-box audits', table('rt3'))
+s = put(s, '### Round 3 (black box, third kind of change)', '### Round 4 (black box', table('rt3'))
+s = put(s, '### Round 4 (black box, six properties)', '### White-box audits', table('rt4'))
 s = put(s, '### White-box audits', 'In addition every builder ran', table('au'))
 open(p, 'w').write(s)
-print('section 12: %d + %d + %d + %d rows' % (len(rows['rt1']), len(rows['rt2']), len(rows['rt3']), len(rows['au'])))
+print('section 12: %d + %d + %d + %d + %d rows' % (len(rows['rt1']), len(rows['rt2']), len(rows['rt3']), len(rows['rt4']), len(rows['au'])))
